@@ -47,7 +47,7 @@ try:
         res["demo_patched_tail"] = (r.stdout + r.stderr)[-400:]
     sh("git -C %s checkout -q -- ." % WT)
     # suite + checks on the scratch copy of /repo HEAD
-    sh("git -C %s checkout -q -- ." % SR)
+    sh("git -C %s checkout -q -- . ; git -C %s checkout -q --detach $(git -C /repo rev-parse HEAD)" % (SR, SR))
     a = sh("git -C %s apply --3way %s || git -C %s apply %s" % (SR, patch, SR, patch))
     st = sh("git -C %s status --porcelain --untracked-files=no" % SR).stdout.strip()
     if not st:
